@@ -103,6 +103,13 @@ Theorem C06_cancelled_task_leaves_its_siblings_untouched : forall cid s t H,
                            c_ent (gcmd c' (finish_task cid s t H)) = []).
 Proof. exact TaskRelease.finish_task_contained. Qed.
 
+(* ... and the same for a COMMAND-level abort: run_until_settled of an aborted command drops its own tasks and leaves
+   every other command's task table untouched, or - for the commands hosted below it - emptied. *)
+Theorem C06_aborted_command_leaves_other_commands_tasks_untouched : forall f x H H',
+  was_aborted x H = true -> settle (S f) x H = Some H' ->
+  forall c', c_ent (gcmd c' H') = c_ent (gcmd c' H) \/ c_ent (gcmd c' H') = [].
+Proof. exact TaskRelease.aborted_settle_contained. Qed.
+
 (* The trace predicate that the check evaluates on the implementation holds of EVERY trace of the
    model: for every command, every schedule (late and repeated resolutions, drops, further aborts, tasks
    spawned onto the aborted command, any number of inspections) and every positive fuel, once the
